@@ -43,7 +43,16 @@ Four bounded-exhaustive parts, all against the real ``compile_filter`` / ``*Mess
                             same name, direction, flags, packet id, acks and extra (as sequences), dropped, synthetic; EQ event
                             dict equal; HTTP request/response equal.
 
-Deviations from DESIGN: 7 leaves instead of 6 in (a) (two type-inapplicable leaves: one raises in both modes, one only without
+Cross-entry state (added after two missed seeds): the entry lists contain the same NAME under different kinds (Foo as LLUDP / EQ /
+HTTP cap, ParcelProperties likewise, in both first-seen orders), the leaf/selector sets contain root selectors that match through the
+entry TYPE (LLUDP, EQ, HTTP, E*, LLUDP.Block.Var), every filter of (a)/(b) is evaluated over the whole entry list forwards and then
+backwards (clause evaluation-order-dependence: identical per-entry verdicts), the three logged kinds of (c) share the name Foo and
+its match-nothing filter is ``!LLUDP && !EQ && !HTTP``; LogHarness.fresh() puts module-level containers of message_logger /
+message_filter back to their import-time contents so that worlds do not inherit state from earlier worlds of the same worker.
+(d) additionally runs the generator's block-count variants (Variable blocks with 0 / 2 / 255 entries, mixed counts, trailing blocks
+omitted; 255 only at thorough) and compares the block lists (names in order + multiplicities, empty lists included).
+
+Deviations from DESIGN: 8 leaves instead of 6 in (a) (two type-inapplicable leaves: one raises in both modes, one only without
 short-circuit); chains with negated terms are enumerated over the first 4 leaves only (size).  Acks/extra are compared as
 sequences (a wire-decoded message's ``extra`` is a bytearray and comes back from import as a list of ints; the datagram is equal).
 """
